@@ -572,10 +572,11 @@ class AnnotateMonotoneStream(annotcorr.AnnotateStream):
 
 
 import c09s14     # noqa: E402
+import c09s16     # noqa: E402
 
 PROPERTY = Property(
     pid="C09",
-    streams=[AnnotateMonotoneStream(), HistoryStream(), GrownHistoryStream()] + c09s14.STREAMS,
+    streams=[AnnotateMonotoneStream(), HistoryStream(), GrownHistoryStream()] + c09s14.STREAMS + c09s16.STREAMS,
     assumptions=[
         "Jinja2 is outside the model: the template is an arbitrary function in the theorems; in the correspondence the model receives "
         "the text real Jinja rendered for the information the model computed",
